@@ -220,13 +220,19 @@ func c18(r *core.Run) {
 			if ok && complete && pre == "" {
 				continue // whole-store iteration (genesis export)
 			}
-			comps := p.KeyComponents(args[1], o.Instr)
-			if len(comps) == 1 && comps[0].Verb == "%s" {
-				nIt++
-				// format must be "%s/"
-				f := formatOf(p, args[1])
-				r.Check(f == "%s/" && setKeyLead == "%s/", "C18/R5", core.FnName(fn)+":inbox-prefix", p.InstrPos(o.Instr), "inbox iteration prefix '%s/' = leading key component", fmt.Sprintf("inbox listing prefix format %q does not match the notification key's leading component %q", f, setKeyLead))
+			// every partial scan of the notification prefix is an inbox listing: its prefix must be one whole leading
+			// key component, i.e. "<address>/" (without the separator the scan also returns the entries of every
+			// address that merely starts with the same characters)
+			if !strings.Contains(core.CalleeFullName(o.Instr), "PrefixIterator") {
+				continue // pagination helper over the whole store
 			}
+			t := core.NewTermBuilder(p).Term(args[1])
+			if t == "alloc" || t == `""` {
+				continue // []byte{}: whole-store iteration
+			}
+			nIt++
+			okPrefix := strings.HasPrefix(t, "concat(") && strings.HasSuffix(t, `,"/")`) && strings.Count(t, `"/"`) == 1
+			r.Check(okPrefix && setKeyLead == "%s/", "C18/R5", core.FnName(fn)+":inbox-prefix", p.InstrPos(o.Instr), "inbox iteration prefix '<address>/' = leading key component", fmt.Sprintf("inbox listing prefix %s is not '<address>/' (the notification key's leading component is %q): entries of other inboxes are listed", t, setKeyLead))
 		}
 	}
 	r.Floor("C18/R5", nIt, 1, "inbox listings")
